@@ -57,3 +57,16 @@ Definition run_from (s : st) (h : list action) : st := fold_left step h s.
    closed the send side on its way out, or it has exited *)
 Definition reader_gone (s : st) : Prop :=
   reader_failed s \/ (exists r, s.(rd) = RStop2 r) \/ reader_exited s.
+
+(* ---------- the size limits (seed C10-15) ---------- *)
+(* a state whose unconsumed client output is b *)
+Definition with_buf (s : st) (b : bytes) : st :=
+  mkSt s.(err) s.(closed) s.(term) s.(mu) s.(pending) s.(rname) s.(req_of) s.(phase_of) s.(fired) s.(rd) s.(seen)
+       b s.(out_open) s.(in_open) s.(alive) s.(aborted) s.(noticed) s.(status) s.(wait_ret).
+
+(* request i's callback got the response (n, tag); the reader goes on with `rest`; nothing else changed:
+   every other pending test is still pending, no failure is recorded, the client is not aborted *)
+Definition delivered_to (s s' : st) (i : N) (n tag rest : bytes) : Prop :=
+  s'.(fired) = s.(fired) ++ [(i, OResp n tag)] /\ s'.(rd) = RRun /\ s'.(buf) = rest /\
+  s'.(pending) = remove_name n s.(pending) /\ s'.(err) = s.(err) /\ s'.(term) = s.(term) /\ s'.(aborted) = s.(aborted).
+
